@@ -94,8 +94,13 @@ class CWLDependencyListener(ECMAScriptListener):
     ) -> None:
         if self._get_name(ctx.singleExpression()) in self.names.global_names():
             for expr in ctx.expressionSequence().singleExpression():
-                if dep := self._get_index(expr.literal()).strip("'\""):
-                    self.deps.add(dep)
+                # Only a string literal index names a field statically: `inputs[k]`,
+                # `inputs['a' + 'b']` and `inputs[0]` cannot be resolved here
+                if isinstance(expr, ECMAScriptParser.LiteralExpressionContext) and (
+                    index := self._get_index(expr.literal())
+                ):
+                    if dep := index.strip("'\""):
+                        self.deps.add(dep)
 
 
 class DependencyResolver:
